@@ -574,6 +574,79 @@ def _stores_into_value(fn):
     return out
 
 
+_NP_INPLACE_FIRST = {"put", "place", "putmask", "copyto", "put_along_axis", "fill_diagonal"}
+
+
+def _view_mutations(fn, find_function):
+    """[(node, what)]: in-place numpy writes into an array that is a view of an operand's data — `<param>.value[…].values`,
+    `.values.data`, `.to_numpy()` without copy=True, `.magnitude`, a plain slice of one, or a local bound to one (also
+    through the module-level helpers the method hands the array to, read in the caller's terms): `np.add.at(a, …)` and
+    the other `ufunc.at`, `np.put / place / putmask / copyto(a, …)`, `a[…] = …`, `a += …`, `a.sort() / a.fill(…)`,
+    `ufunc(…, out=a)`. Fancy indexing (`a[indexes]`) and explicit copies are fresh arrays."""
+    from ..astutil import nodes_through_helpers, view_root
+    params = {a.arg for a in fn.args.args}
+    nodes = list(nodes_through_helpers(fn, None, depth=2, find_function=find_function))
+
+    def is_view(e, local_views):
+        if isinstance(e, ast.Name):
+            return e.id in local_views
+        if isinstance(e, ast.Attribute) and e.attr in ("values", "data", "_data", "magnitude", "m"):
+            return is_view(e.value, local_views) or rooted(e.value)
+        if isinstance(e, ast.Call) and isinstance(e.func, ast.Attribute) and e.func.attr == "to_numpy":
+            if any(k.arg == "copy" and isinstance(k.value, ast.Constant) and k.value.value is True for k in e.keywords):
+                return False
+            return is_view(e.func.value, local_views) or rooted(e.func.value)
+        if isinstance(e, ast.Call) and norm(e.func) in ("np.asarray", "numpy.asarray") and e.args:
+            return is_view(e.args[0], local_views)
+        if isinstance(e, ast.Subscript) and isinstance(e.slice, ast.Slice):
+            return is_view(e.value, local_views)
+        return False
+
+    def rooted(e):
+        """<param>.value, <param>.value[<column>], ….pint / .values of those"""
+        x = e
+        while True:
+            if isinstance(x, ast.Subscript) and isinstance(x.slice, ast.Constant):
+                x = x.value
+            elif isinstance(x, ast.Attribute) and x.attr in ("pint", "values", "data", "_data"):
+                x = x.value
+            else:
+                break
+        return isinstance(x, ast.Attribute) and x.attr == "value" and isinstance(x.value, ast.Name) and x.value.id in params
+    local_views = set()
+    for _ in range(3):
+        for n in nodes:
+            if isinstance(n, ast.Assign) and len(n.targets) == 1 and isinstance(n.targets[0], ast.Name) \
+                    and is_view(n.value, local_views):
+                local_views.add(n.targets[0].id)
+    out = []
+    for n in nodes:
+        tgt = what = None
+        if isinstance(n, ast.Call) and isinstance(n.func, ast.Attribute):
+            f = n.func
+            if f.attr == "at" and isinstance(f.value, ast.Attribute) and norm(f.value.value) in ("np", "numpy") and n.args:
+                tgt, what = n.args[0], f"{norm(f)}"
+            elif norm(f.value) in ("np", "numpy") and f.attr in _NP_INPLACE_FIRST and n.args:
+                tgt, what = n.args[0], norm(f)
+            elif f.attr in ("sort", "fill", "partition", "resize", "itemset") and is_view(f.value, local_views):
+                tgt, what = f.value, f".{f.attr}()"
+            else:
+                o = next((k.value for k in n.keywords if k.arg == "out"), None)
+                if o is not None:
+                    tgt, what = o, f"{norm(f)}(…, out=…)"
+        elif isinstance(n, ast.Assign) and any(isinstance(t, ast.Subscript) for t in n.targets):
+            t = next(t for t in n.targets if isinstance(t, ast.Subscript))
+            if isinstance(t.value, ast.Name) and t.value.id in local_views:
+                tgt, what = t.value, "item assignment"
+        elif isinstance(n, ast.AugAssign) and isinstance(n.target, (ast.Name, ast.Subscript)):
+            b = n.target.value if isinstance(n.target, ast.Subscript) else n.target
+            if isinstance(b, ast.Name) and b.id in local_views:
+                tgt, what = b, "augmented assignment (in place on an array)"
+        if tgt is not None and is_view(tgt, local_views):
+            out.append((n, what, norm(tgt)))
+    return out
+
+
 @rule("R-PURE")
 def r_pure(E):
     pm = E.pm
@@ -594,6 +667,14 @@ def r_pure(E):
                     "R-PURE", f"{cls}.{fn.name} :: {norm(n)[:100]}",
                     f"{cls}.{fn.name} stores into {who}.value: the operation changes its operand", path, n.lineno,
                     f"{cls}.{fn.name}"))
+            # numpy writes into an array that is a view of an operand's data
+            if (cls, fn.name) not in VALUE_STORE_ALLOWED:
+                for n, what, tgt in _view_mutations(fn, pm.function_finder(path)):
+                    res.findings.append(Finding(
+                        "R-PURE", f"{cls}.{fn.name} :: {what} into {tgt[:60]}",
+                        f"{cls}.{fn.name} writes ({what}) into `{tgt[:70]}`, an array that shares its memory with the "
+                        f"operand's own series: the operation changes its operand (an input of the model is altered by "
+                        f"computing with it)", path, getattr(n, "lineno", fn.lineno), f"{cls}.{fn.name}"))
             # in-place helpers called on an operand inside an operator
             if fn.name.startswith("__") and fn.name not in ("__init__",):
                 for n in ast.walk(fn):
